@@ -2,6 +2,7 @@
 package main
 
 import (
+	"regexp"
 	"fmt"
 	"go/ast"
 	"go/format"
@@ -241,6 +242,28 @@ func normLines(l []string) string {
 // then requested itself (its comments must still be delivered)
 var c05depFirst = false
 
+// c05universeBetween: (with c05depFirst) the universe is made after the user package was loaded and the
+// package under test is requested into it afterwards
+var c05universeBetween = false
+
+var reC05Struct = regexp.MustCompile(`(?m)^type (X[0-9_]+) struct`)
+
+// c05userSrc: a package that uses a struct type of the package under test when it declares one
+// (so that the type, its fields and methods are reached through the user), else only imports it
+func c05userSrc(path string, files map[string]string) string {
+	var names []string
+	for n := range files {
+		names = append(names, n)
+	}
+	sort.Strings(names)
+	for _, n := range names {
+		if m := reC05Struct.FindStringSubmatch(files[n]); m != nil {
+			return "package c05user\n\nimport dep \"" + path + "\"\n\nvar V dep." + m[1] + "\n"
+		}
+	}
+	return "package c05user\n\nimport _ \"" + path + "\"\n"
+}
+
 // c05twice: the package is requested a second time into the universe that already holds it
 var c05twice = false
 
@@ -248,6 +271,7 @@ func c05(g *Gen) {
 	n := g.N(150, 4000)
 	for i := 0; i < n; i++ {
 		c05depFirst = i%4 == 3
+		c05universeBetween = i%8 == 7
 		c05twice = i%4 == 1
 		c := &c05gen{g: g, cls: map[string]bool{}}
 		pkg := "cm"
@@ -282,6 +306,9 @@ func c05(g *Gen) {
 		}
 		if c05twice {
 			cls = append(cls, "requested-twice-into-one-universe")
+		}
+		if c05depFirst && c05universeBetween {
+			cls = append(cls, "dependency-in-universe-before-it-is-requested")
 		}
 		for k := range c.cls {
 			cls = append(cls, k)
